@@ -37,12 +37,6 @@ std::vector<size_t> cpStarts(const std::string& s) {
   v.push_back(s.size());
   return v;
 }
-size_t countOf(const std::string& hay, const std::string& needle) {
-  if (needle.empty()) return 0;
-  size_t n = 0;
-  for (size_t p = hay.find(needle); p != std::string::npos; p = hay.find(needle, p + needle.size())) ++n;
-  return n;
-}
 const char* synName(rl::Syntax s) { return s == rl::Syntax::MATH ? "MATH" : s == rl::Syntax::ASCII ? "ASCII" : "UNDEF"; }
 const char* vcName(rl::ValueClass v) { return v == rl::ValueClass::value ? "value" : v == rl::ValueClass::props ? "props" : "invalid"; }
 
@@ -104,8 +98,11 @@ struct Input {
   int ctxVariant = 0;          // 0: D9 is part of the context, 1: D9 is absent
   bool lexFirst = false;       // drain Parser::Lex before Parse (all passes)
   bool abandonLex = false;     // long-lived parsers only: start lexing this text and abandon the stream before the call
+  bool convert = false;        // also run ConvertTo in both directions (fresh parser + static generator inside the library)
   bool extract = false;        // steal the tree after a successful parse (Parser / SchemaAuditor), like Schema does
-  bool evalOK = false;         // cheap enough for the interpreter
+  bool evalOK = false;         // cheap enough for the interpreter (decided during the fresh pass, see decideEval)
+  EP tree;                     // the tree the text was printed from
+  bool faithful = true;        // false when the text was corrupted after printing
   SchemaMode smode = EXPR_ONLY;
   std::string alias, definition; sem::CstType cst = sem::CstType::term;
   std::string litText, litExpected;  // "B(X1*X2)"_t and the spelling of the type it denotes
@@ -180,21 +177,13 @@ void genLiteralType(Ctx& c, int depth, std::string& text, Ty& ty, bool allowTupl
   ty = Ty::Tuple(cs);
 }
 
-// static cost estimate for the interpreter: power-set symbols in the text, lazy power-set globals and the bodies of called functions
-struct CostModel {
-  std::vector<std::string> lazyNames;
-  std::vector<std::pair<std::string, size_t>> funcCost;
-  size_t base(const std::string& t) const {
-    size_t n = countOf(t, "\xE2\x84\xAC") + countOf(t, "B");
-    for (auto& l : lazyNames) n += countOf(t, l);
-    return n;
-  }
-  size_t of(const std::string& t) const {
-    size_t n = base(t);
-    for (auto& f : funcCost) n += countOf(t, f.first) * (1 + f.second);
-    return n;
-  }
-};
+// Cost filter for the interpreter (not an oracle).  An input that the type checker rejects costs nothing to "evaluate".  An accepted
+// input is evaluated only if the reference evaluator of model/rstyped.hpp gets through its tree within a small step budget: the
+// library needs about 0.1 ms per element operation under the sanitizers, and a symmetric difference of two ℬ(X1×X1) takes 12 s.
+bool modelCheap(const Gamma& G, const EP& tree) {
+  try { Evaluator ev(G); ev.budget = 1500; (void)ev.eval(tree); return true; }
+  catch (const std::exception&) { return false; }
+}
 
 // ------------------------------------------------------------------------------------------------ library environment
 struct Env {
@@ -250,7 +239,7 @@ void observeSchemaSuccess(Rec& r, const std::string& p, sem::SchemaAuditor& s, b
   if (extract) { auto t = s.ExtractAST(); r.add(p + "extracted", t ? rl::AST2String::Apply(*t) : std::string("<null>")); }
 }
 
-Rec observe(Objs& o, sem::SchemaAuditor& schemaForCst, const Input& in, Env& env) {
+Rec observe(Objs& o, sem::SchemaAuditor& schemaForCst, Input& in, Env& env, const Gamma* decideWith = nullptr) {
   Rec r;
   env.setVariant(in.ctxVariant);
   const std::string& text = in.text;
@@ -271,8 +260,10 @@ Rec observe(Objs& o, sem::SchemaAuditor& schemaForCst, const Input& in, Env& env
       r.add("generator.fromtree.ascii", rl::Generator::FromTree(ast, rl::Syntax::ASCII));
       if (in.extract) { auto t = o.parser.ExtractAST(); r.add("parser.extracted", t ? treeDump(*t) : std::string("<null>")); }
     }
-    r.add("generator.convert.math", rl::ConvertTo(text, rl::Syntax::MATH));
-    r.add("generator.convert.ascii", rl::ConvertTo(text, rl::Syntax::ASCII));
+    if (in.convert) {
+      r.add("generator.convert.math", rl::ConvertTo(text, rl::Syntax::MATH));
+      r.add("generator.convert.ascii", rl::ConvertTo(text, rl::Syntax::ASCII));
+    }
   }
   // ---- Auditor
   {
@@ -303,6 +294,7 @@ Rec observe(Objs& o, sem::SchemaAuditor& schemaForCst, const Input& in, Env& env
     r.add("auditor.errors+value", errList(o.auditor.Errors()));
   }
   // ---- Interpreter
+  if (decideWith != nullptr) in.evalOK = in.text.size() <= 600 && (!r.typeOK || (in.faithful && modelCheap(*decideWith, in.tree)));
   if (in.evalOK) {
     r.evaluated = true;
     const auto res = o.interp.Evaluate(text, in.hint);
@@ -380,11 +372,7 @@ Verdict historyProp(Ctx& c) {
   { Global d; d.name = "D9"; d.type = g.randType(2); d.value = g.randValue(d.type, 3); g.G.globals.push_back(d); }  // the global that comes and goes
   const bool lazy = c.coin();
 
-  CostModel cost;
-  for (auto& gl : g.G.globals) if (gl.construction == 1) cost.lazyNames.push_back(gl.name);
-  for (auto& f : g.G.funcs) cost.funcCost.emplace_back(f.name, cost.base(render(f.body)));
-
-  const int n = c.ipick(3, 30);
+  const int n = rare(c, 1, 4) ? c.ipick(3, 30) : c.ipick(3, 12);
   std::vector<Input> ins;
   for (int i = 0; i < n; ++i) {
     Input in;
@@ -420,7 +408,8 @@ Verdict historyProp(Ctx& c) {
     PrintOpts po; po.syn = in.ascii ? Syn::ASCII : Syn::MATH;
     if (wantMultiline) { po.rnd = &c; po.whitespace = 25; po.newlines = true; po.redundantParens = 15; po.shortDeclarative = true; }
     in.text = render(tree, po);
-    if (in.kind == UNPARSABLE) in.text = makeUnparsable(c, in.text, in.ascii, in.note);
+    in.tree = tree;
+    if (in.kind == UNPARSABLE) { in.text = makeUnparsable(c, in.text, in.ascii, in.note); in.faithful = false; }
     in.multiline = in.text.find('\n') != std::string::npos;
     const int hw = c.ipick(0, 19);
     in.hint = hw == 19 ? (in.ascii ? rl::Syntax::MATH : rl::Syntax::ASCII) : hw >= 17 ? rl::Syntax::UNDEF : (in.ascii ? rl::Syntax::ASCII : rl::Syntax::MATH);
@@ -428,7 +417,7 @@ Verdict historyProp(Ctx& c) {
     in.lexFirst = rare(c, 1, 3);
     in.abandonLex = rare(c, 1, 8);
     in.extract = rare(c, 1, 3);
-    in.evalOK = cost.of(in.text) <= 2 && in.text.size() <= 400;
+    in.convert = rare(c, 1, 3);
     in.smode = static_cast<SchemaMode>(c.ipick(0, 2));
     if (in.smode != EXPR_ONLY) {
       static const std::vector<std::pair<const char*, sem::CstType>> heads = {{"D99", sem::CstType::term}, {"F9", sem::CstType::function}, {"P9", sem::CstType::predicate}, {"S99", sem::CstType::structured},
@@ -458,7 +447,7 @@ Verdict historyProp(Ctx& c) {
   for (int i = 0; i < n; ++i) {
     const auto& in = ins[static_cast<size_t>(i)];
     c.show << "  #" << i << " " << kKind[in.kind] << (in.note.empty() ? "" : "(" + in.note + ")") << (in.multiline ? " multiline" : "") << " hint=" << synName(in.hint)
-           << (in.ctxVariant ? " ctx=without-D9" : "") << (in.lexFirst ? " lex" : "") << (in.abandonLex ? " abandon-lex" : "") << (in.extract ? " extract" : "") << (in.evalOK ? " eval" : "");
+           << (in.ctxVariant ? " ctx=without-D9" : "") << (in.lexFirst ? " lex" : "") << (in.abandonLex ? " abandon-lex" : "") << (in.extract ? " extract" : "") << (in.convert ? " convert" : "");
     if (in.smode != EXPR_ONLY) c.show << " cst=(" << in.alias << "," << static_cast<int>(in.cst) << (in.definition == in.text ? "" : in.definition.empty() ? ",<empty>" : ",'" + esc(in.definition) + "'") << ")" << (in.smode == CST_ONLY ? " cst-only" : "");
     if (!in.litText.empty()) c.show << " lit=" << in.litText;
     c.show << " : '" << esc(in.text) << "'\n";
@@ -470,10 +459,16 @@ Verdict historyProp(Ctx& c) {
   if (!env.lib.buildError.empty()) return pbt::discard("function-text");
 
   std::vector<Rec> ra(static_cast<size_t>(n)), rb(static_cast<size_t>(n)), rf(static_cast<size_t>(n));
+  // fresh objects first: this pass also decides which inputs the interpreter sees
+  for (int i = 0; i < n; ++i) {
+    Objs o(env);
+    sem::SchemaAuditor cstAuditor(env.lib, env.vc(), env.lib.astContext());
+    rf[static_cast<size_t>(i)] = observe(o, cstAuditor, ins[static_cast<size_t>(i)], env, &g.G);
+  }
   auto runLong = [&](const std::vector<int>& order, std::vector<Rec>& out) {
     Objs o(env);
     for (int idx : order) {
-      const auto& in = ins[static_cast<size_t>(idx)];
+      auto& in = ins[static_cast<size_t>(idx)];
       if (in.abandonLex) { auto ts = o.parser.Lex(in.text, in.hint); (void)ts(); }
       out[static_cast<size_t>(idx)] = observe(o, o.schema, in, env);
     }
@@ -481,14 +476,8 @@ Verdict historyProp(Ctx& c) {
   std::vector<int> orderA; for (int k = 0; k < n; ++k) orderA.push_back(k);
   runLong(orderA, ra);
   runLong(orderB, rb);
-  for (int i = 0; i < n; ++i) {
-    Objs o(env);
-    sem::SchemaAuditor cstAuditor(env.lib, env.vc(), env.lib.astContext());
-    rf[static_cast<size_t>(i)] = observe(o, cstAuditor, ins[static_cast<size_t>(i)], env);
-  }
 
   // ---- oracle: long-lived == fresh, call by call, in both orders
-  bool sawKnownStaleFlags = false;
   for (int pass = 0; pass < 2; ++pass) {
     const auto& order = pass == 0 ? orderA : orderB;
     const auto& rl_ = pass == 0 ? ra : rb;
@@ -498,7 +487,7 @@ Verdict historyProp(Ctx& c) {
         if (!d.demanded) { c.count("unconstrained:" + d.field); continue; }
         // known finding: CheckConstituenta returns early (base set with a definition / derived constituent without one) before any
         // per-call state is reset, so the verdict accessors and GetSyntax still describe the previous call
-        if ((d.field == "schema.cst.flags" || d.field == "schema.cst.syntax") && rf[i].cstEarlyReturn && pbt::known("schema-cst-early-return-stale-state")) { sawKnownStaleFlags = true; continue; }
+        if ((d.field == "schema.cst.flags" || d.field == "schema.cst.syntax") && rf[i].cstEarlyReturn && pbt::known("schema-cst-early-return-stale-state")) { c.count("known-skipped:schema-cst-early-return-stale-state"); continue; }
         const std::string pred = pos == 0 ? std::string("<first call>") : "'" + esc(ins[static_cast<size_t>(order[pos - 1])].text) + "'";
         return pbt::fail(d.field, std::string(pass == 0 ? "sequence order" : "rotated order") + ", input #" + std::to_string(i) + " '" + clip(esc(ins[i].text)) + "' after " + clip(pred) +
                                       ": long-lived object gives <" + clip(esc(d.longVal)) + ">, fresh object gives <" + clip(esc(d.freshVal)) + ">");
@@ -510,7 +499,6 @@ Verdict historyProp(Ctx& c) {
     for (const auto& fld : rf[i].f) if (fld.name == "literal_t.type" && fld.value != ins[i].litExpected)
       return pbt::fail("literal_t.model", "\"" + ins[i].litText + "\"_t gives " + fld.value + ", the text denotes " + ins[i].litExpected);
   }
-  if (sawKnownStaleFlags) return pbt::excluded("schema-cst-early-return-stale-state");
 
   // ---- classes
   std::vector<std::string> cls;
@@ -520,6 +508,7 @@ Verdict historyProp(Ctx& c) {
     for (size_t pos = 1; pos < order.size(); ++pos) {
       const size_t p = static_cast<size_t>(order[pos - 1]), q = static_cast<size_t>(order[pos]);
       c.label("pair:" + cls[p] + ">" + cls[q]);
+      if (ins[p].multiline) { c.nontrivial = true; c.label("pred-multiline(" + cls[p] + ")>" + cls[q]); }
       if (cls[p] == "plain") continue;
       c.nontrivial = true;
       c.label("obj:parser:after-" + cls[p]);
@@ -542,7 +531,7 @@ Verdict historyProp(Ctx& c) {
 
 int main(int argc, char** argv) {
   std::vector<pbt::Prop> props;
-  props.push_back({"history", historyProp, 1400, 4000, false, false,
+  props.push_back({"history", historyProp, 1100, 12000, false, false,
                    "sequences of 3-30 inputs over one typed context; long-lived objects in sequence order and in a rotated order vs fresh objects per call"});
   return pbt::main(argc, argv, "C18", props);
 }
